@@ -139,6 +139,14 @@ func c12GenDist(t *rapid.T) c12DistCase {
 		c.Ps = append(c.Ps, c12GenP(t, "p"))
 	}
 	c.Integrate = rapid.IntRange(0, 3).Draw(t, "integrate") == 0
+	// probabilities that are exactly the distribution function at small integers and at
+	// 2^k-1 (points a bracketing search is likely to probe): InvCDF must invert there too
+	if c.Kind == "t" && rapid.IntRange(0, 2).Draw(t, "probe") == 0 {
+		x := rapid.SampledFrom([]float64{1, 3, 7, 15, 31, 63, 2, 4, 8, 0.5, -1, -3, -7, 0}).Draw(t, "probe_x")
+		if p := (TDist{V: c.V}).CDF(x); p > 1e-12 && p < 1-1e-12 {
+			c.Ps = append(c.Ps, p)
+		}
+	}
 	return c
 }
 
